@@ -28,7 +28,7 @@ var propMeta = map[string][2][]string{
 	"C10": {{"StoreClient/Cache are scripted by nondeterministic outcomes; at most 2/3 failing requests, after which the caller's context ends", "timers replaced by a recorded list of sleeps", "string order is an uninterpreted strict total order"},
 		{"wall-clock behaviour of real timers", "more than 3 declared names", "struct-tag parsing for arbitrary struct shapes (see C20)"}},
 	"C11": {{"GetIfChanged answers not-changed iff the versions are equal (protocol contract)", "singleflight.DoChan runs the function once per key (leader model)", "clock quantities are mathematical integers within +-2^40 s"},
-		{"real tickers and wall-clock cadence (the jitter arithmetic itself is decided, 5 ns <= interval < 2^62 ns)", "server-side changes within one poll beyond the arbitrary per-name service state", "a service that reuses version numbers"}},
+		{"real tickers and wall-clock cadence (the jitter arithmetic itself is decided for every positive interval)", "server-side changes within one poll beyond the arbitrary per-name service state", "a service that reuses version numbers"}},
 	"C12": {{"a single mutex and one critical section per operation make operations atomic (trusted reduction)"},
 		{"true parallel interleavings and the Go race detector", "memory-model effects below the mutex abstraction"}},
 	"C13": {{"encoding/json contract model, including the outcome 'error with a partially filled target'", "FS model of C04 for the cache file"},
